@@ -311,7 +311,9 @@ def sample_spec(draw, min_d=1, max_d=6, min_n=0, max_n=40, datatypes=('I', 'I', 
     """A loadable sample: D channels with distinct metadata, N events from a seed plus specials."""
     D = draw(st.integers(min_d, max_d))
     dt = draw(st.sampled_from(datatypes))
-    names = draw(st.permutations([n for n in NAME_POOL if with_time or n != 'Time']))[:D]
+    # (a duplicate-free list of draws rather than st.permutations: the latter is practically never satisfiable from
+    # the byte strings of the coverage-guided engine)
+    names = draw(st.lists(st.sampled_from([n for n in NAME_POOL if with_time or n != 'Time']), min_size=D, max_size=D, unique=True))
     little = draw(st.booleans())
     if dt == 'I':
         w = draw(st.sampled_from(int_widths))
